@@ -563,6 +563,63 @@ func checkWriteMethod(c *Checker, rg *Ranger, fn *ssa.Function) {
 			c.fail("RDC-3", key, instrPos(ret), "returned count "+w.canonFB(v)+" is not tied to what was handed to the layer below")
 		}
 	})
+	// a Write method that chunks promises to take any length: each record it forms must then fit the
+	// record limit WriteMessage enforces (math.MaxUint16) - the unchunked hand-over only under a
+	// proved len(b) <= 65535, a chunk length never a constant above it
+	chunks := false
+	allInstrs(fn, func(in ssa.Instruction) {
+		if call, ok := in.(*ssa.Call); ok && calleeNamed(call, "WriteMessage") {
+			args := call.Common().Args
+			if sl, ok := unwrapLoadAlloc(args[len(args)-1]).(*ssa.Slice); ok && sl.X == b {
+				chunks = true
+			}
+		}
+	})
+	if chunks {
+		rg := newRanger(w)
+		allInstrs(fn, func(in ssa.Instruction) {
+			call, ok := in.(*ssa.Call)
+			if !ok || !calleeNamed(call, "WriteMessage") {
+				return
+			}
+			args := call.Common().Args
+			arg := unwrapLoadAlloc(args[len(args)-1])
+			key := fmt.Sprintf("%s|record fits the limit|%s", name, w.canonFB(arg))
+			if arg == b {
+				okk := false
+				allInstrs(fn, func(x ssa.Instruction) {
+					lc, isCall := x.(*ssa.Call)
+					if !isCall {
+						return
+					}
+					if bi, isB := lc.Call.Value.(*ssa.Builtin); isB && bi.Name() == "len" && unwrapLoadAlloc(lc.Call.Args[0]) == b {
+						if r := rg.At(lc, call.Block()); !r.empty && r.hi <= 65535 {
+							okk = true
+						}
+					}
+				})
+				c.decide(okk, "RDC-3", key, instrPos(call), "len(b) <= 65535 where the whole buffer is one record",
+					"the whole buffer is handed over as one record without len(b) <= math.MaxUint16 being established: a write just above the limit is refused instead of being chunked")
+				return
+			}
+			if sl, ok := arg.(*ssa.Slice); ok && sl.Low != nil && sl.High != nil {
+				if add, ok := sl.High.(*ssa.BinOp); ok && add.Op == token.ADD {
+					x := add.Y
+					if add.Y == sl.Low {
+						x = add.X
+					}
+					bad := ""
+					for _, v := range expandValues(x) {
+						if k, isK := intConst(v); isK && k > 65535 {
+							bad = fmt.Sprint(k)
+						}
+					}
+					c.decide(bad == "", "RDC-3", key, instrPos(call), "chunk length is never a constant above 65535",
+						"a chunk of "+bad+" bytes exceeds the record limit: every large write fails")
+				}
+			}
+		})
+	}
 	// chunk loop contiguity (NoiseConn.Write): every WriteMessage argument is b or b[acc : acc+k]
 	allInstrs(fn, func(in ssa.Instruction) {
 		call, ok := in.(*ssa.Call)
